@@ -63,11 +63,16 @@ BLOCK_WORDS = ("func", "for", "if", "switch")
 INERT_OPS = {"LOAD_GLOBAL", "LOAD_CONST", "LOAD_FAST", "LOAD_FREE", "NIL", "TRUE", "FALSE"}
 
 
-def inert_reject(piece, api_result):
+def inert_reject(piece, api_result, earlier=()):
     """class predicate (complement of the known finding compile-rejected-piece-not-rolled-back), decided on the failing input
     itself: the rejected piece enters no function / loop / block, and - as observed on the compiler - it declared no symbol,
-    created no code object and had emitted nothing but plain loads of names and constants when it was rejected"""
+    created no code object and had emitted nothing but plain loads of names and constants when it was rejected.  A load of a
+    global is plain only while every declared global has a value: after a piece that failed at run time (`earlier` results
+    with ERR) a name may be declared without one (the other recorded finding), and the load the rejected piece left behind
+    - executed by the next Run, which is what the known finding says - is then an error"""
     import re
+    if "LOAD_GLOBAL" in api_result and any(r.startswith("ERR") for r in earlier):
+        return False
     if re.search(r"\b(%s)\b" % "|".join(BLOCK_WORDS), piece):
         return False
     f = dict(x.split("=", 1) for x in api_result.split() if "=" in x)
@@ -127,6 +132,157 @@ def thread_program(rng, n):
     return L, any(x.startswith("func launch") for x in L)
 
 
+# ---------------------------------------------------------------- pieces that fail at every kind of point
+
+FAILS = ["[1][5]", "{}[\"nokey\"]", "nil()", "[1, 2][7]", "hostfn.nope"]
+FAIL_PANIC = "rq_deep(0)"      # more than 1024 frames: ends as a recovered Go panic
+
+
+def failure_point_history(rng, i):
+    """One VM, one failing piece, and the same machinery used again afterwards.
+    Every construct below fails only while the host-side fuse holds its code (`setfuse(n)` / `fuse()`, host builtins that the
+    local modules see as well), so the SAME module / function / callback / thread body fails in one piece and must work in the
+    later ones.  The failure happens inside: the top-level code of an imported local module (three import forms, a nested
+    import, a callback / a thread / a too-deep recursion at the module's top level), a function of an imported module, a
+    deferred call, a callback of a builtin method, a thread being waited for, a deep chain of frames, a loop / switch / literal
+    with operands pending.  -> (modules, pieces, reference pieces, index of the failing piece)"""
+    fe = rng.choice(FAILS)
+
+    def fail(code):
+        return "if fuse() == %d { %s }" % (code, fe)
+    mods = {
+        "mqa": "val := 7\n%s\nfunc get() { return val }\nfunc bump() { val = val + 1; return val }\n" % fail(1),
+        "mqb": "import mqa\nbase := mqa.val * 2\n%s\nfunc twice() { return base }\n" % fail(2),
+        "mqc": "cnt := 0\nfunc work(x) { %s; cnt = cnt + 1; return x + cnt }\n" % fail(3),
+        "mqd": "xs := [1, 2, 3].map(func(x) { %s; return x * 2 })\nfunc sum() { s := 0; for _, x := range xs { s = s + x }; return s }\n" % fail(4),
+        "mqe": "r := spawn(func() { %s; return 11 }).wait()\nfunc res() { return r }\n" % fail(5),
+        "mqf": "func rq(n) { return rq(n + 1) }\nif fuse() == 6 { rq(0) }\nval := 8\n",
+        "mqg": "from mqa import get\nimport mqc\nseen := get()\n%s\nfunc both() { return [seen, mqc.work(0)] }\n" % fail(12),
+    }
+    n = str(i)
+    defs = [
+        "func dq_N(x) { defer func() { %s }(); return x + 1 }" % fail(7),
+        "func cb_N(x) { %s; return x * 3 }" % fail(8),
+        "func th_N(x) { %s; return x + 100 }" % fail(9),
+        "func deep_N(k) { if k == 0 { %s; return 0 }; return deep_N(k - 1) + 1 }" % fail(10),
+        "func rq_deep(k) { return rq_deep(k + 1) }\nfunc pan_N(x) { if fuse() == 11 { %s }; return x }" % FAIL_PANIC,
+        "import mqc",
+        "acc_N := %d" % rng.below(9),
+    ]
+    defs = [d.replace("_N", "_" + n) for d in defs]
+    # (fuse code, statement that fails while the fuse holds the code, the same machinery as a value once it works)
+    uses = [
+        (1, "import mqa", "import mqa\nmqa.bump()"),
+        (1, "import mqa as al_N", "import mqa as al_N\nal_N.val"),
+        (1, "from mqa import get", "from mqa import get\nget()"),
+        (1, "import mqb", "import mqb\n[mqb.twice(), mqb.base]"),
+        (2, "import mqb", "import mqb\nmqb.twice()"),
+        (2, "from mqb import twice", "from mqb import twice\ntwice()"),
+        (1, "import mqg", "import mqg\nmqg.both()"),
+        (12, "import mqg", "import mqg\nmqg.seen"),
+        (3, "mqc.work(1)", "mqc.work(1)"),
+        (3, "[1, 2].map(mqc.work)", "[1, 2].map(mqc.work)"),
+        (4, "import mqd", "import mqd\nmqd.sum()"),
+        (5, "import mqe", "import mqe\nmqe.res()"),
+        (6, "import mqf", "import mqf\nmqf.val"),
+        (7, "dq_N(1)", "dq_N(1)"),
+        (8, "[1, 2, 3].map(cb_N)", "[1, 2, 3].map(cb_N)"),
+        (8, "[3, 1, 2].filter(cb_N)", "[3, 1, 2].filter(cb_N)"),
+        (8, "hostlist.each(cb_N)", "hostlist.each(cb_N)"),
+        (8, "[1, 2, hostfn(3, cb_N(4))]", "[1, 2, hostfn(3, cb_N(4))]"),
+        (8, "func() { for i, x := range [1, 2, 3] { if i == 1 { cb_N(x) } } }()", "func() { for i, x := range [1, 2, 3] { if i == 1 { acc_N = acc_N + cb_N(x) } } }()\nacc_N"),
+        (8, "switch 2 { case 1: 0\n case 2: cb_N(1) }", "switch 2 { case 1: 0\n case 2: cb_N(1) }"),
+        (8, "func() { defer func() { cb_N(2) }(); return 3 }()", "func() { defer func() { cb_N(2) }(); return 3 }()"),
+        (9, "spawn(th_N, 1).wait()", "spawn(th_N, 1).wait()"),
+        (9, "th_N.spawn(2).wait()", "th_N.spawn(2).wait()"),
+        (9, "[spawn(th_N, 1), spawn(th_N, 2)].map(func(t) { return t.wait() })", "[spawn(th_N, 1), spawn(th_N, 2)].map(func(t) { return t.wait() })"),
+        (3, "spawn(mqc.work, 5).wait()", "spawn(mqc.work, 5).wait()"),
+        (10, "deep_N(%d)" % (1 + rng.below(40)), "deep_N(%d)" % (1 + rng.below(40))),
+        (11, "pan_N(1)", "pan_N(1)"),
+        (11, "[1].map(pan_N)", "[1].map(pan_N)"),
+    ]
+    uses = [(c, a.replace("_N", "_" + n), b.replace("_N", "_" + n)) for c, a, b in uses]
+    base = gen.Gen(rng, budget=8).program_parts()
+    head, rest = base[:2], split_parts(rng, base[2:])
+    k0 = rng.below(len(rest) + 1)
+    code, failing, _ = rng.choice(uses)
+    prefix = rng.choice(["print(%d)" % rng.below(9), "log.append(%d)" % (90 + rng.below(9)), "acc_%s = acc_%s + 1" % (n, n), "limit += 1"])
+    tail = rng.choice(["", "", "\nprint(777)", "\nlimit = 555", "\nlog.append(778)"])
+    fpiece = prefix + "\nsetfuse(%d)\n" % code + failing + tail
+    rpiece = prefix + "\nsetfuse(%d)" % code
+    # while the fuse still holds the code: constructs with another code work, the failing one fails again
+    during = [u[2] for u in uses if u[0] != code and not (code == 1 and u[0] in (2, 12))]
+    mid = [rng.choice(during) for _ in range(rng.below(3))]
+    if rng.chance(1, 3):
+        mid.append(failing)
+    after = [u[2] for u in uses]
+    same = [u[2] for u in uses if u[0] == code]
+    probes = [rng.choice(same)] + [rng.choice(after) for _ in range(2 + rng.below(5))]
+    if rng.chance(1, 2):
+        probes.insert(rng.below(len(probes) + 1), failing)       # the very statement that failed, now with the fuse off
+    before = ["\n".join(head)] + split_parts(rng, defs) + rest[:k0]
+    k = len(before)
+    follow = mid + ["setfuse(0)"] + probes[:2] + rest[k0:] + probes[2:] + ["[acc_%s, limit, log]" % n]
+    return mods, before + [fpiece] + follow, before + [rpiece] + follow, k
+
+
+# ---------------------------------------------------------------- threads that are running when their piece ends
+
+def waited_thread_program(rng, i):
+    """threads (spawn / f.spawn) that are still RUNNING - in the middle of a long loop - or blocked and then running again when
+    the piece that started or released them ends, and that a later piece waits for.  They take everything through parameters
+    and give everything back through their result (no global is written by a thread), so there is one outcome whatever the
+    schedule; the evaluators run under a context that has a Done channel and is never cancelled while the case runs."""
+    n = str(i)
+    L = ["func work_N(k, tag) { s := tag; for j := 0; j < k; j++ { s = s + j % 7 }; return [tag, s] }",
+         "func held_N(c, k) { v := <-c; s := 0; for j := 0; j < k; j++ { s = s + j % 5 }; return v * 1000 + s % 1000 }",
+         "acc_N := %d" % rng.below(5)]
+    waits, names = [], []
+    nt = 1 + rng.below(3)
+    for w in range(nt):
+        loops = 15000 + rng.below(25000)
+        how = rng.below(6)
+        t = "tq_%s_%d" % (n, w)
+        if how == 0:
+            L.append("%s := spawn(work_N, %d, %d)" % (t, loops, w + 1))
+        elif how == 1:
+            L.append("%s := work_N.spawn(%d, %d)" % (t, loops, w + 1))
+        elif how == 2:
+            L.append("%s := spawn(func(k) { s := 0; for j := 0; j < k; j++ { s = s + j %% 3 }; return s }, %d)" % (t, loops))
+        elif how == 3:
+            # blocked when its piece ends; released by a later piece and running when THAT piece ends
+            L.append("gate_N_%d := chan(%s)" % (w, rng.choice(["1", "2", ""])))
+            L.append("%s := spawn(held_N, gate_N_%d, %d)" % (t, w, loops))
+            waits.append("gate_N_%d <- %d" % (w, 1 + rng.below(9)))
+        elif how == 4:
+            # a thread that starts and waits for a thread of its own
+            L.append("%s := spawn(func(k) { inner := spawn(work_N, k, 9); return [inner.wait(), k] }, %d)" % (t, loops))
+        else:
+            # a thread that waits for an earlier one
+            prev = names[-1] if names else None
+            if prev:
+                L.append("%s := spawn(func(o, k) { r := o.wait(); s := 0; for j := 0; j < k; j++ { s = s + j %% 11 }; return [r, s] }, %s, %d)" % (t, prev, loops))
+            else:
+                L.append("%s := spawn(work_N, %d, %d)" % (t, loops, w + 1))
+        names.append(t)
+        for _ in range(rng.below(3)):
+            L.append(rng.choice(["acc_N = acc_N + 1", "acc_N = acc_N * 2", "print(acc_N)", "hostlist.append(acc_N)", "limit += 1"]))
+    for wst in waits:
+        L.append(wst)
+        L.append(rng.choice(["acc_N = acc_N + 10", "print(limit)", "acc_N += 3"]))
+    order = list(range(nt))
+    for a in range(nt - 1, 0, -1):
+        b = rng.below(a + 1)
+        order[a], order[b] = order[b], order[a]
+    for w in order:
+        L.append("rq_%s_%d := %s.wait()" % (n, w, names[w]))
+        if rng.chance(1, 2):
+            L.append("acc_N = acc_N + 1")
+    L.append("[acc_N, %s]" % ", ".join("rq_%s_%d" % (n, w) for w in range(nt)))
+    return [x.replace("_N", "_" + n) for x in L]
+
+
+
 THREAD_KNOWN = {
     "threads-nested": ("thread-code-loaded-in-clone-keeps-stale-globals",
                        "a thread whose function literal is nested in another function (its code is first loaded inside the thread's VM "
@@ -179,8 +335,12 @@ def build_repl_tool():
     return out, ""
 
 
-def hexline(pieces):
-    return ",".join(p.encode("utf-8", "surrogateescape").hex() for p in pieces)
+def hexline(pieces, mods=None):
+    """one case line; `mods` (name -> source) are the local modules the case's importer serves"""
+    pre = ""
+    if mods:
+        pre = ";".join("%s:%s" % (n, src.encode("utf-8").hex()) for n, src in sorted(mods.items())) + "@"
+    return pre + ",".join(p.encode("utf-8", "surrogateescape").hex() for p in pieces)
 
 
 def split_parts(rng, parts):
@@ -250,7 +410,7 @@ def _judge(res, route, cases, outs, oracle, hist, checked, distinct, inert=None)
             checked["skipped_time_budget"] = checked.get("skipped_time_budget", 0) + 1
             continue
         why = None
-        if kind in ("split", "stack-growth", "threads", "threads-nested", "threads-racing"):
+        if kind in ("split", "stack-growth", "threads", "threads-nested", "threads-racing", "threads-waited"):
             if whole.startswith("WHOLE OK"):
                 wres, _, wrest = whole[9:].partition(" GLOBALS ")
                 wgl, _, wtr = wrest.partition(" TRACE ")
@@ -271,7 +431,7 @@ def _judge(res, route, cases, outs, oracle, hist, checked, distinct, inert=None)
                 why = None     # the text happened to parse; not a rejected piece
             elif kind.startswith("compile-reject") and not inserted.startswith("REJECT compile"):
                 why = None
-            elif kind == "runtime-failure":
+            elif kind in ("runtime-failure", "runtime-failure-point"):
                 if not inserted.startswith("ERR"):
                     why = None
                 else:
@@ -281,7 +441,11 @@ def _judge(res, route, cases, outs, oracle, hist, checked, distinct, inert=None)
                                           "value, for the pieces that follow (e.g. pieces `b := [1][5]`, `b`: the second is an eval error "
                                           "\"variable has no value\" instead of the compiler's \"undefined variable\")")
                     elif others != ref_others or _gl_differ(gl, rgl) or tr != rtr:
-                        why = "a piece that failed at run time changed what followed beyond its own effects"
+                        dk = [j for j in range(min(len(others), len(ref_others))) if others[j] != ref_others[j]]
+                        why = "a piece that failed at run time changed what followed beyond its own effects" + (
+                            ": piece %d (`%s`) gives %s, in the same history without the failure %s" % (
+                                dk[0] + (1 if dk[0] >= k else 0), pieces[dk[0] + (1 if dk[0] >= k else 0)].replace("\n", "; ")[:120],
+                                others[dk[0]], ref_others[dk[0]]) if dk else "")
                     checked[kind] = checked.get(kind, 0) + 1
             else:
                 if others != rres or _gl_differ(gl, rgl) or tr != rtr:
@@ -405,6 +569,17 @@ def run(res):
         if i % 4 == 0 and not nested:
             # message and answer in different pieces: the thread is running while the next piece is loaded
             cases.append(("threads-racing", [x for ch in parts for x in ch.split("\n")], None, None))
+    # pieces that fail inside an import, a deferred call, a callback, a waited thread, deep frames ... and the same machinery afterwards
+    case_mods = {}
+    for i in range(700 if tier == "quick" else 16000):
+        mods, pieces, ref, k = failure_point_history(rng, i)
+        case_mods[len(cases)] = mods
+        cases.append(("runtime-failure-point", pieces, ref, k))
+    # threads that are running (or blocked, then running) at the piece boundaries and are waited for by a later piece
+    for i in range(120 if tier == "quick" else 2500):
+        parts = waited_thread_program(rng, i)
+        cases.append(("threads-waited", split_parts(rng, parts), None, None))
+        cases.append(("threads-waited", list(parts), None, None))
     # corpus: the design witnesses and the witnesses of repaired defects
     cases.append(("split", ["x := 1; func g() { return x + 1 }", "g()", "x = 10", "g()"], None, None))
     cases.append(("split", ["x := 1", "func g() { x = x + 1; return x }", "g()", "y := 5", "x = 10", "g()", "[x, y]"], None, None))
@@ -414,10 +589,10 @@ def run(res):
     cases.append(("stack-growth", ["1"] * 1100, None, None))
 
     lines = []
-    for kind, pieces, ref, k in cases:
-        lines.append(hexline(pieces))
+    for ci, (kind, pieces, ref, k) in enumerate(cases):
+        lines.append(hexline(pieces, case_mods.get(ci)))
         if ref is not None:
-            lines.append(hexline(ref))
+            lines.append(hexline(ref, case_mods.get(ci)))
     nsh = C.NCPU
     chunks = [lines[s::nsh] for s in range(nsh)]
     os.makedirs(C.WORK, exist_ok=True)
@@ -466,7 +641,7 @@ def run(res):
         if kind == "compile-reject-expr" and o is not None and o.startswith("INC "):
             results = parse_out(o)[0]
             if k < len(results) and results[k].startswith("REJECT compile"):
-                inert[ci] = inert_reject(pieces[k], results[k])
+                inert[ci] = inert_reject(pieces[k], results[k], results[:k])
     for route, outs in routes.items():
         _judge(res, route, cases, outs, oracle, hist, checked, distinct, inert)
     outs = routes["repl"]
@@ -478,7 +653,13 @@ def run(res):
                    "positions, compared with the same history without the insert; rejected one-statement pieces of every expression form (pipes, calls, index, slices, "
                    "operators, ternary, template strings, literals, attribute access, assignments, function literals, conditions) with an undefined name "
                    "or a nested pipe inside, judged strictly when the compiler kept nothing of them but plain loads; channel-synchronised programs whose "
-                   "threads (go / spawn) live across the piece boundaries and share globals with the main code; plus 1100 one-expression pieces (stack growth). "
+                   "threads (go / spawn) live across the piece boundaries and share globals with the main code; pieces that fail INSIDE the top-level code of "
+                   "an imported local module (an importer serves modules whose code fails while a host-side fuse is set: three import forms, nested imports, "
+                   "a callback / thread / too-deep recursion at module level), inside a function of a module, a deferred call, a callback of a builtin method, a "
+                   "thread being waited for, a deep chain of frames, a loop / switch / literal with pending operands - followed by pieces that use the very "
+                   "same modules, functions, callbacks and threads again with the fuse off, compared with the history that has the piece without its "
+                   "failing statement; threads (spawn / f.spawn, threads of threads) that are in the middle of a long loop - or blocked, then released and running - "
+                   "when their piece ends and are waited for by a later piece, under a context with a Done channel that is never cancelled during the case; plus 1100 one-expression pieces (stack growth). "
                    "Non-trivial = distinct histories.")
     cov["samples"] = [{"kind": cases[1][0], "pieces": cases[1][1]}, {"impl": outs[0][:300]}]
     cov["input_distribution"] = hist
